@@ -4,6 +4,7 @@ death-by-signal detection, wall-clock backstop."""
 import json
 import os
 import struct
+import zlib
 
 from props import hist, rsess
 from simkit import gen, rw
@@ -99,6 +100,12 @@ def gen_case(rng: Rng, i: int, tier: str):
         # EncodedHeader record rewritten to declare hundreds of folders over that one packed stream
         return {"base": {"bigheader": {"members": 1500, "namelen": 150}}, "kind": "many_header_folders", "mseed": r.randrange(1 << 30),
                 "seq": [{"op": "getnames"}], "open": r.pick(["stream", "path"]), "chunk": 128000000, "folders": r2.pick([700, 1300])}
+    if r2.chance(0.012):
+        # directed: names declared "external" with a data index somewhere in the header itself - on the names record (which then
+        # describes itself), on another record, at the first byte, at or past the end.  Hand-built: no writer emits this form.
+        return {"base": {"handmade": "external_names"}, "kind": "external_names", "mseed": r.randrange(1 << 30),
+                "seq": [{"op": op} for op in ["getnames", "list", "test", "testzip", "extractall_f"]][: r2.randint(1, 5)], "open": r.pick(["stream", "path", "anon"]),
+                "chunk": 128000000, "nfiles": r2.pick([1, 1, 2, 3]), "pad": r2.pick([0, 0, 3, 40]), "where": r2.pick(["self", "self", "self", "emptystream", "start", "last", "beyond", "terminator"])}
     if r2.chance(0.06):
         # the record that describes the packed header (kEncodedHeader StreamsInfo) is mutated like the header itself
         kind = "outer_structure"
@@ -147,7 +154,26 @@ def _bigheader_image(spec):
     return _BOMBS[key]
 
 
+def _external_names_image(case):
+    n = case["nfiles"]
+    body = bytearray([0x01, 0x05, n])
+    if case["pad"]:
+        body += bytes([0x19, case["pad"]]) + bytes(case["pad"])  # kDummy
+    at_empty = len(body)
+    bits = bytes([(0xFF << (8 - n)) & 0xFF])
+    body += bytes([0x0E, 0x01]) + bits + bytes([0x0F, 0x01]) + bits  # every member an empty file
+    at_names = len(body)
+    total = at_names + 4 + 2
+    idx = {"self": at_names, "emptystream": at_empty, "start": 0, "last": total - 1, "beyond": total + 7, "terminator": total - 2}[case["where"]]
+    body += bytes([0x11, 0x02, 0x01, idx & 0x7F]) + b"\x00\x00"
+    header = bytes(body)
+    start = struct.pack("<QQL", 0, len(header), zlib.crc32(header) & 0xFFFFFFFF)
+    return b"7z\xbc\xaf\x27\x1c" + b"\x00\x04" + struct.pack("<L", zlib.crc32(start) & 0xFFFFFFFF) + start + header
+
+
 def _base_image(case):
+    if "handmade" in case["base"]:
+        return _external_names_image(case), None, None
     if "bigheader" in case["base"]:
         return _bigheader_image(case["base"]["bigheader"]), None, None
     if "bomb" in case["base"]:
@@ -185,6 +211,10 @@ def make_input(case):
         toks, desc = M.mutate(toks, r)
         raw = M.serialise(toks)
         data = W.reseal(img, raw, keep_upto=32 + (a.data_end or 0) if a.header_kind == "encoded" else None)
+        entered = True
+    elif kind == "external_names":
+        data = img
+        desc = ["names external, data index on %s, %d members, %d bytes of padding" % (case["where"], case["nfiles"], case["pad"])]
         entered = True
     elif kind == "many_header_folders":
         nofs, nsize, _ = struct.unpack("<QQI", img[12:32])
